@@ -419,6 +419,17 @@ func spoil(r *rand.Rand, k Kind, b []byte, hardOnly bool) bool {
 		d := GenDate(r)
 		putBCDDate(b, d.Y, d.M, d.D)
 		b[4], b[5], b[6] = bcd2(r.Intn(24)), bcd2(r.Intn(60)), bcd2(r.Intn(60))
+		if r.Intn(4) == 0 {
+			// around the 'no timestamp' encodings: an all-zero (or 2000-00-00) date in front of a time of day
+			b[0], b[1], b[2], b[3] = pick(r, byte(0), 0x20), 0, 0, 0
+			if hardOnly || r.Intn(2) == 0 {
+				i := 4 + r.Intn(3)
+				b[i] = (b[i] & 0x0f) | byte(10+r.Intn(6))<<4
+			} else if b[4] == 0 && b[5] == 0 && b[6] == 0 {
+				b[5] = 0x01
+			}
+			return true
+		}
 		if hardOnly || r.Intn(2) == 0 {
 			badNibble(r, b, 7)
 			return true
